@@ -67,10 +67,41 @@ BseqProps(e) ==
       C04 |-> (okv => Valid(out.v)),
       C03 |-> (okv => out.str = Render(out.v) /\ PrintableAscii(out.str))]
 OpaqueProps(e) == [C06 |-> e.kind \in {"ok", "err"}]
+\* PackageType::from_str(s) = res
+LookupProps(e) ==
+  LET r == Lookup(e.s) IN
+  [C06 |-> "panic" \notin DOMAIN e.res,
+   C15 |-> /\ "some" \in DOMAIN e.res
+           /\ (e.res.some <=> r.ok)
+           /\ (e.res.some => e.res.v = r.t /\ e.res.views_agree)]
+\* builder_with_combined_name(t, s), build(), combined_name(), and back
+CombProps(e) ==
+  IF "panic" \in DOMAIN e THEN [C06 |-> FALSE] ELSE
+  LET tab == LcTab(e)
+      sp == SplitCombined(e.t, e.s)
+      exp == BuildF(Typed, e.t, [NoParts EXCEPT !.ns = sp.ns, !.name = sp.name], tab)
+      okv == "ok" \in DOMAIN e.out /\ e.out.ok
+  IN [C06 |-> "panic" \notin DOMAIN e.out,
+      C18 |-> /\ e.split = sp
+              /\ (okv <=> exp.ok) /\ (okv => e.out.v = exp.v)
+              /\ (okv => e.joined.some /\ e.joined.x = JoinCombined(exp.v))
+              /\ ((okv /\ CombinedInvertible(exp.v)) => (e.inverse.ns = exp.v.ns /\ e.inverse.name = exp.v.name)),
+      C04 |-> (okv => Valid(e.out.v))]
+\* two values handed out by the parser, their strings and the comparison results
+PairProps(e) ==
+  [C19 |-> /\ (e.eq <=> (e.a = e.b)) /\ (e.eq <=> (e.sa = e.sb))
+           /\ (e.eq => e.hash_eq)
+           /\ (e.cmp_ab = 0 <=> e.eq)
+           /\ ((e.cmp_ab = 1 /\ e.cmp_ba = 2) \/ (e.cmp_ab = 2 /\ e.cmp_ba = 1) \/ (e.cmp_ab = 0 /\ e.cmp_ba = 0)),
+   C03 |-> e.sa = Render(e.a) /\ e.sb = Render(e.b),
+   C04 |-> Valid(e.a) /\ Valid(e.b)]
 Props(e) == CASE e.ev = "value" -> ValueProps(e)
               [] e.ev = "parse" -> ParseProps(e)
               [] e.ev = "bseq" -> BseqProps(e)
               [] e.ev = "opaque" -> OpaqueProps(e)
+              [] e.ev = "tlookup" -> LookupProps(e)
+              [] e.ev = "comb" -> CombProps(e)
+              [] e.ev = "pair" -> PairProps(e)
               [] OTHER -> [TOOL |-> FALSE]
 FailedProps(e) == LET p == Props(e) IN {k \in DOMAIN p : ~p[k]}
 EventOk(e) == FailedProps(e) = {}
